@@ -17,6 +17,13 @@ for d in sorted(os.listdir(root)):
     prop = meta["property"]
     r = subprocess.run(["/verif/tools/try_mutant.sh", prop, os.path.join(root, d, "patch.diff")], stdout=subprocess.PIPE, stderr=subprocess.STDOUT, text=True)
     out = r.stdout
+    if "patch does not apply" in out:
+        # the files it touches were changed by a later fix: or hook commit; what
+        # was recorded when it applied stays
+        meta["stale"] = "patch no longer applies to /repo HEAD (its context was changed by later fix:/hook commits); detection recorded at the time it applied"
+        json.dump(meta, open(mp, "w"), indent=1)
+        print(d, "STALE (patch does not apply any more)")
+        continue
     viol = [l for l in out.splitlines() if l.startswith("violation:")]
     classes = sorted(set(re.findall(r"class=(\S+) locator=(\S+)", "\n".join(viol))))
     meta["detected"] = ("exit=1" in out) and bool(viol)
